@@ -139,7 +139,7 @@ def check(case, ctx):
                 if st != 'ok':
                     ctx.fail('parse-of-written-raises', exp, back, call=call, written=w)
                     continue
-                if nz(back) != exp or any(type(back[k]) is not type(exp[k]) and back[k] != exp[k] for k in exp if k in back):
+                if back != exp or any(type(back[k]) is not type(exp[k]) and back[k] != exp[k] for k in exp if k in back):
                     ctx.fail('round-trip', exp, back, call=call, written=w)
                     continue
                 # the parsed composition belongs to the caller: editing it must not change a later parse
